@@ -234,6 +234,7 @@ class SpatialTransform(DeviceProperty, Module, metaclass=ABCMeta):
         optimizer = torch.optim.Adam(params, lr=lr)
         for step in range(steps):
             optimizer.zero_grad()
+            self.update()  # buffered vector fields have to be recomputed from parameters of this iteration
             loss = F.mse_loss(self.disp(), flow.tensor())
             loss.backward()
             optimizer.step()
